@@ -1,6 +1,6 @@
 """Registry entry of property C15 (see tools/registry.py)."""
 
-# one source, seven executables (-DVF_PART=k): the exception-mode settings classes are defined in the harness itself
+# one source, eight executables (-DVF_PART=k): the exception-mode settings classes are defined in the harness itself
 # (checkMode = CheckMode::exception, extraCheckMode = nothing, checkVersion / checkKeyVersion / checkValueVersion = true)
 _PARTS = [
     (0, "hashset"),
@@ -9,7 +9,8 @@ _PARTS = [
     (6, "treemulti_treemap"),
     (3, "multimap"),
     (4, "arrays"),
-    (5, "table"),
+    (5, "table_static"),
+    (7, "table_dynamic"),
 ]
 
 PROP = {
@@ -22,7 +23,7 @@ PROP = {
                    "MOMO_CHECK of HashSet/HashMap, TreeSet/TreeMap, HashMultiMap (key version + value version), DataTable (change version + remove "
                    "version: row references, selections, row pointers, hash bounds) and the index checks of Array / SegmentedArray and their index "
                    "iterators. For every world of two objects with distinct version cells, every handle value and every argument: (1) bump_on_mutation - "
-                   "every entry point of the complete lists (HOp 24, TOp 24, MOp 25, BOp 23 constructors; merge fast paths, swap-when-empty, range "
+                   "every entry point of the complete lists (HOp 24, TOp 24, MOp 25, BOp 23 constructors; merge fast paths, MergeTo into an empty destination, range "
                    "removal, Assign included) never decreases a counter and strictly increases the counter a handle snapshots whenever keys / capacity / "
                    "root / key set / values / rows changed or a row is gone; (2) stale_rejected - a use (read, advance, CheckIterator, Add, Add(extracted), "
                    "Remove, extracting Remove, range Remove, ResetKey, MakeMutable..., Selection::Set/Add/Insert, Sort/Group/bounds, bounds indexing) of a "
@@ -126,12 +127,12 @@ PROP = {
          "timeout_quick": 600, "timeout_thorough": 3000}
         for (k, n) in _PARTS
     ],
-    "rule": ("15 container configurations in 7 executables, all with CheckMode::exception and version checks on: HashSet (default bucket, Open8, "
+    "rule": ("15 container configurations in 8 executables, all with CheckMode::exception and version checks on: HashSet (default bucket, Open8, "
              "LimP4<2> with slow hash), HashMap (default, OpenN1), TreeSet (default node, TreeNode<4,2>), TreeMultiSet<TreeNode<4,1>>, "
              "TreeMap<TreeNode<6,3>>, HashMultiMap (default, Open8), Array (heap / internal capacity 4) with SegmentedArray (sqrt,1 / cnst,2), DataTable "
              "(static columns with row numbers, dynamic columns without; unique hash index on a, multi hash index on b). Two objects A and B per "
              "scenario. Enumeration of all (state, handle kind, invalidating or non-invalidating entry point, subsequent use) tuples: hash 5 states x 8 "
-             "handle kinds x 34 entry points x 18 uses, tree 7 x 8 x 36 x 20 (MergeTo by every path for source and destination, swap-when-empty, "
+             "handle kinds x 34 entry points x 18 uses, tree 7 x 8 x 36 x 20 (MergeTo by every path for source and destination incl. an empty destination, "
              "Remove(begin,end), ++/-- at both ends), multimap 5 x 9 x 26 x 17/9 (key iterators and value iterators; InsertKey moves only the key "
              "version), table 3 x 11 x 24 x 17/12/3 (references from operator[] / insertion / refused insertion / selection / row pointer / hash "
              "bounds; TryAdd, TryInsert, TryUpdate(row) and (column), Remove / Extract by reference and number, Clear, Remove(filter) with and "
